@@ -25,6 +25,7 @@ static void vf_memcpy(GElement *d, const GElement *sp, size_t n)
   { /* one copy per iteration: dst row i <- src row BR(i) of the selected column block */
     if (g_sub != 0 || !__CPROVER_same_object(d, g_dst) || OFF(d) != 8 * PMUL(i, g_ncols)) g_bad = 1;
     if (!__CPROVER_same_object(sp, g_src) || OFF(sp) != 8 * (PMUL(rr, g_ncols_all) + g_off)) g_bad = 1;
+    if (extension > 1 && !(rr < g_size / (uint64_t)extension)) g_bad = 1;      /* with extension > 1 only rows of the polynomial (r < size/extension) are copied */
   }
   else
   { /* three copies: tmp <- row r ; row r <- row i ; row i <- tmp   (only when r < i) */
@@ -38,9 +39,13 @@ static void vf_memcpy(GElement *d, const GElement *sp, size_t n)
 }
 static void vf_memset(GElement *d, int c, size_t n)
 { /* zero fill of dst row i: only out of place with extension > 1, for a source row beyond the polynomial */
+  if (BRspec(g_i, g_dp) < g_size / (uint64_t)extension) g_bad = 1;               /* zero fill exactly for the source rows beyond the polynomial */
   if (g_inplace || extension <= 1 || c != 0 || n != g_ncols * 8 || g_sub != 0 || !__CPROVER_same_object(d, g_dst) || OFF(d) != 8 * PMUL(g_i, g_ncols)) g_bad = 1;
   g_sub++;
 }
+/* AXIOM row-offsets (instantiated per row; true of the integer products while r*ncols_all + offset_cols does not wrap, offset_cols < ncols_all):
+ *   r*ncols_all + offset_cols < q*ncols_all  <=>  r < q      - the code compares row OFFSETS, the contract speaks about ROWS */
+#define VF_ROW_AXIOM(i) __CPROVER_assume(extension < 1 || ((PMUL(BR(i, g_dp), g_ncols_all) + g_off < PMUL(g_size / (uint64_t)extension, g_ncols_all)) == (BR(i, g_dp) < g_size / (uint64_t)extension)))
 /* per-iteration bookkeeping: the loop contract ties the monitor's row index to the loop variable */
 #define LOOP_ROWS \
   __CPROVER_assigns(i, g_i, g_sub, g_bad, g_tmp) \
